@@ -65,6 +65,71 @@ Definition failed_subtrees_removed (E : env) (s s' : state) (t : N) : bool :=
          && negb (memN g (roots s'))
     else true) (tgroups E t).
 
+(* ---------------------------------------------------------------- data dependency, abstractly *)
+(* Work declared by a task result (or a stream item) lives inside the data that this result
+   delivers: a value produced by such work must be delivered, and a group / stream declared by it
+   must be announced, only after the declaring value has been delivered. *)
+Inductive origin := OInit | OTask (t : N) | OItem (x : N) (k : nat).
+
+Fixpoint find_idx (p : work -> bool) (l : list work) (k : nat) : option nat :=
+  match l with
+  | [] => None
+  | w :: r => if p w then Some k else find_idx p r (S k)
+  end.
+
+Fixpoint find_item (p : work -> bool) (l : list (N * list work)) : option (N * nat) :=
+  match l with
+  | [] => None
+  | (x, items) :: r => match find_idx p items 0 with
+                       | Some k => Some (x, k)
+                       | None => find_item p r
+                       end
+  end.
+
+Definition origin_of (E : env) (sel : work -> list N) (id : N) : origin :=
+  match find (fun e => memN id (sel (snd e))) (e_twork E) with
+  | Some (t, _) => OTask t
+  | None => match find_item (fun w => memN id (sel w)) (e_items E) with
+            | Some (x, k) => OItem x k
+            | None => OInit
+            end
+  end.
+
+(* delivered so far: task values, number of items per stream *)
+Definition dstate := (list N * list (N * nat))%type.
+
+Definition origin_ok (d : dstate) (o : origin) : bool :=
+  match o with
+  | OInit => true
+  | OTask t => memN t (fst d)
+  | OItem x k => match aget x (snd d) with Some c => Nat.ltb k c | None => false end
+  end.
+
+Definition creation_step (E : env) (d : dstate) (e : wqevent) : option dstate :=
+  let announce_ok d ngs nss :=
+    forallb (fun g => origin_ok d (origin_of E w_groups g)) ngs
+    && forallb (fun x => origin_ok d (origin_of E w_streams x)) nss in
+  match e with
+  | GroupValues _ ts =>
+      fold_left (fun (od : option dstate) t =>
+        match od with
+        | Some d => if origin_ok d (origin_of E w_tasks t) then Some (t :: fst d, snd d) else None
+        | None => None
+        end) ts (Some d)
+  | GroupSuccess _ ngs nss => if announce_ok d ngs nss then Some d else None
+  | StreamValues x first count ngs nss =>
+      let d' := (fst d, aset x (first + count)%nat (snd d)) in
+      if announce_ok d' ngs nss then Some d' else None
+  | _ => Some d
+  end.
+
+Definition creation_ok (E : env) (evs : list wqevent) : bool :=
+  match fold_left (fun (od : option dstate) e =>
+          match od with Some d => creation_step E d e | None => None end) evs (Some ([], [])) with
+  | Some _ => true
+  | None => false
+  end.
+
 (* event alphabet of an environment *)
 Definition candidates (E : env) : list gevent :=
   flat_map (fun e => [TaskOk (fst e); TaskFail (fst e)]) (e_tgroups E)
@@ -111,7 +176,8 @@ Definition check_path (E : env) (w : work) (evs : list gevent) : bool :=
   && (stopped s1 || existsb (en_single E s1) (candidates E))     (* never stuck *)
   && last_step_ok E s0 evs
   && valid_prefix (e_parent E) ps
-  && (if stopped s1 then valid (e_parent E) ps else true).
+  && (if stopped s1 then valid (e_parent E) ps else true)
+  && creation_ok E (concat outs).
 
 Definition explore (n : nat) (g : env * work) : bool :=
   let '(E, w) := g in
